@@ -49,3 +49,15 @@ NOT_APPLICABLE = {
 }
 
 
+
+CLAIMS["C07"] = (
+    "model_checking",
+    "TLC enumerates all depth-1 recipes over a 20-atom alphabet, structured families around the rewrites named "
+    "in the property (nested powers, powers of products/quotients, exponent merging, radical extraction) and "
+    "seeded random depth-2/3 recipes; each is built through the API and TLC compares the value of the recipe "
+    "with the value of the dump of the returned expression at six assignments, in a value domain combining "
+    "exact Gaussian rationals with a ring homomorphism into GF(p) (two primes) that interprets radicals of "
+    "2,3,5,7, roots of unity and i exactly (principal branch)",
+    "4, 6/C07", TRUSTED + "; a comparison rejects only when the residues of two defined finite values differ, so it "
+    "can miss but not invent a difference; points where a needed root is not representable are not decisive",
+    "TLA+ denotational semantics (exact + modular evaluation) + TLC trace validation")
